@@ -27,6 +27,90 @@ def rdata_variants_built(ctx, b, depth=0, seen=None):
     return out
 
 
+PASS_THROUGH = ("Iterator::map", "Iterator::inspect", "Iterator::collect", "IntoIterator>::into_iter", "<impl [T]>::iter",
+                "Iterator>::next", "Iterator::cloned", "Iterator::copied", "Iterator::peekable", "Iterator::by_ref", "Iterator::take",
+                "Iterator::skip", "Deref>::deref", "Iterator::rev", "Iterator::fuse")
+
+
+def _proj_key(pl):
+    return [(p.get("dc"), p.get("f")) if isinstance(p, dict) else p for p in pl["p"]]
+
+
+def behind_filter(x, op, filter_closure_id, depth=40):
+    """walk the first-argument chain of `op` backwards (through coroutine-saved places too)"""
+    defs = mu.defs_of(x)
+    cur_op = op
+    steps = []
+    for _ in range(depth):
+        if cur_op.get("o") not in ("copy", "move"):
+            return False, "flow lost at a constant (%s)" % " <- ".join(steps[-4:])
+        pl = cur_op["pl"]
+        nxt = None
+        if pl["p"] and any(isinstance(p, dict) and "dc" in p and p.get("n") is None for p in pl["p"]):
+            # a value saved in the coroutine state: find what is written to the same state slot
+            key = _proj_key(pl)
+            # the slot itself or a prefix of it
+            cands = []
+            for bl in x.blocks:
+                if bl["cleanup"]:
+                    continue
+                for s in bl["stmts"]:
+                    if s["s"] == "assign" and s["pl"]["p"] and _proj_key(s["pl"]) == key[:len(s["pl"]["p"])] and len(s["pl"]["p"]) >= 3:
+                        cands.append(("stmt", s["rv"]))
+                tt = bl["term"]
+                if tt["t"] == "call" and tt["dest"]["p"] and _proj_key(tt["dest"]) == key[:len(tt["dest"]["p"])] and len(tt["dest"]["p"]) >= 3:
+                    cands.append(("call", tt))
+            if len(cands) != 1:
+                return False, "flow lost at a saved value with %d writers (%s)" % (len(cands), " <- ".join(steps[-4:]))
+            kind, v = cands[0]
+            if kind == "call":
+                nxt = ("call", v)
+            elif v["k"] == "use":
+                cur_op = v["op"]
+                continue
+            elif v["k"] == "ref":
+                cur_op = {"o": "copy", "pl": v["pl"]}
+                continue
+            else:
+                return False, "flow lost at %s" % v["k"]
+        else:
+            l = pl["l"]
+            d = mu.single_def(defs, l)
+            if d is None:
+                if l <= x.argc:
+                    return False, "reaches parameter _%d without passing the filter (%s)" % (l, " <- ".join(steps[-4:]))
+                return False, "flow lost at _%d (%d definitions; %s)" % (l, len(defs.get(l, [])), " <- ".join(steps[-4:]))
+            if d[1] == "term":
+                nxt = ("call", d[2])
+            else:
+                rv = d[2]
+                if rv["k"] == "use":
+                    cur_op = rv["op"]
+                    continue
+                if rv["k"] == "ref":
+                    cur_op = {"o": "copy", "pl": rv["pl"]}
+                    continue
+                if rv["k"] == "cast":
+                    cur_op = rv["op"]
+                    continue
+                return False, "flow lost at an rvalue of kind %s (%s)" % (rv["k"], " <- ".join(steps[-4:]))
+        _, tt = nxt
+        cal = tt["callee"]["def"] if tt["callee"] else "(indirect)"
+        steps.append(cal.split("::")[-1])
+        if cal == "std::iter::Iterator::filter":
+            cl = mu.op_local(tt["args"][1])
+            dd = mu.single_def(defs, cl) if cl is not None else None
+            if dd is not None and dd[1] != "term" and dd[2].get("ak") == "closure" and dd[2]["def"] == filter_closure_id:
+                return True, "%d steps" % len(steps)
+            return False, "passes a different filter (%s)" % " <- ".join(steps[-4:])
+        if not any(cal.endswith(pt) for pt in PASS_THROUGH):
+            return False, "the value passes `%s`, which can merge in records that never saw the filter (flow: %s)" % (cal, " <- ".join(steps[-6:]))
+        if not tt["args"]:
+            return False, "flow lost at %s" % cal
+        cur_op = tt["args"][0]
+    return False, "flow too long"
+
+
 def run(ctx):
     prog = ctx.prog
     report = Report("C15", ctx, "R1 the RData variants InstanceInformation::into_records builds (A, AAAA, SRV, TXT) are exactly the variants "
@@ -133,15 +217,24 @@ def run(ctx):
                 n += 1
         except NotATable as e:
             viol(report, "C15-R2", cb, "not-a-table", str(e))
-        # every add_cached_resource receives items of that filtered iterator
+        # every record stored (add_cached_resource) or reported (from_records) is an item of that filtered iterator: walking
+        # the value back through the iterator pipeline, the verified filter is met before any adapter that merges a second
+        # source (chain / zip / extend) and before the source itself
         adds = []
         for x in fam:
-            adds += [(x, t) for bi, t in mu.calls(x, r"ResourceRecordManager::<'a>::add_cached_resource$")]
+            adds += [(x, t, 1, "stored") for bi, t in mu.calls(x, r"ResourceRecordManager::<'a>::add_cached_resource$")]
+            adds += [(x, t, 1, "reported") for bi, t in mu.calls(x, r"InstanceInformation::from_records$")]
         report.count()
-        if not adds:
-            viol(report, "C15-R2", b, "no-insert", "%s never stores received records" % b.qname)
-        else:
-            report.nontriv("inserts " + q.split("::")[1])
+        if len(adds) < 3:
+            viol(report, "C15-R2", b, "no-insert", "%s no longer stores and reports received records (found %d uses, expected 3)" % (b.qname, len(adds)))
+        for x, t, ai, what in adds:
+            report.count()
+            okf, why = behind_filter(x, t["args"][ai], cb.id)
+            if okf:
+                report.nontriv("%s %s bb-flow %s" % (what, q.split("::")[1], why))
+            else:
+                viol(report, "C15-R2", x, "unfiltered-" + what, "a record %s by %s does not come out of the own-instance / subdomain filter: %s" % (
+                    what, b.qname, why))
     report.floor("ingest filters verified", n, 2)
     report.sample({"rule": "R2", "filter": "aw.name != full_name && aw.name.is_subdomain_of(service_name)"})
     report.assumptions += ["set / attribute equality across the wire and the escape / unescape inverse are value-level and not decided"]
